@@ -131,9 +131,14 @@ def product_cases(draw, tier):
 @st.composite
 def long_product_cases(draw, tier):
     """One of m / k / n long (crossing the blocking sizes 32..512), the others <= 3."""
-    which = draw(st.sampled_from(["m", "k", "k", "n"]))
+    which = draw(st.sampled_from(["m", "k", "k", "n", "mk", "kn"]))
     dims = {d: draw(st.integers(1, 3)) for d in "mkn"}
-    dims[which] = draw(gen.long_dim(cap=300 if tier == "quick" else None))
+    if len(which) == 2:
+        # two moderately long dimensions: an operand with thousands of entries (size-switched code paths)
+        for d in which:
+            dims[d] = draw(st.sampled_from([33, 64, 65, 70]))
+    else:
+        dims[which] = draw(gen.long_dim(cap=300 if tier == "quick" else None))
     A, pa = draw(gen.long_qarray(dims["m"], dims["k"]))
     B, pb = draw(gen.long_qarray(dims["k"], dims["n"]))
     return {"A": A, "B": B, "pa": pa, "pb": pb}
